@@ -37,6 +37,9 @@ def run(ctx):
     every_rule(ctx, f, cfg)
     record(ctx, f, cfg)
     wiring(ctx, f, cfg)
+    # one statistic per controller: a handed-over statistic leaves the old list, so no two new controllers record into the same window
+    from . import rules_C11
+    rules_C11.rebuild(ctx, f, "flow", "build_resource_traffic_shaping_controller", cfg, R="C01.once/stat-handover")
 
 
 def _reject_checkers(f):
